@@ -1271,6 +1271,24 @@ func main() {
 		for i := 0; i < n; i++ {
 			scs = append(scs, randomScenario(rng, o.Thorough()))
 		}
+		if o.Thorough() {
+			// slow readers of other shapes (volume, response size, pause across one to three drain polls, a
+			// second prompt connection, pool)
+			shapes := [][2]int{{50, 64}, {100, 64}, {200, 64}, {60, 256}, {24, 1024}, {120, 128}}
+			for i, sh := range shapes {
+				sc := Scenario{Kind: "plan", Trigger: "ended", CtxMs: 15000,
+					Conns: []ConnPlan{{Reqs: bigReqs(sh[0], sh[1]), PauseMs: 700 + rng.Intn(1300)}}}
+				if i%2 == 1 {
+					sc.Conns = append(sc.Conns, ConnPlan{Reqs: []ReqPlan{{Dur: 30}}})
+				}
+				if i%3 == 2 {
+					// the workers block in conn.Write, the other handlers wait in the queue: shut down once
+					// everything has been read
+					sc.Pool, sc.QCap, sc.Trigger = 2, 256, "parsed"
+				}
+				scs = append(scs, sc)
+			}
+		}
 		scs = append(scs, appScenarios(rng, o.Thorough())...)
 	}
 
